@@ -1,10 +1,16 @@
-(* C10 — voting power: which operations queue the rebalance, and that only the
-   end of block consumes it.  (The numeric target of RebalanceBondTokenWeights is
-   checked on the implementation by the harness monitor and by the exact
-   correspondence of the staking view; it is not proved here: partial.) *)
+(* C10 — voting power.  Proved: which operations queue the rebalance and that only the end of block
+   consumes it; the target the rebalance computes for a bonded validator is the sum over started assets
+   with bonded stake of (its fraction of the asset's bonded validator shares) x (reward weight x native
+   bonded stake), assets in warm-up contributing nothing (C10_target_formula, C10_warmup_contributes_nothing);
+   validators outside the bonded set are neither counted in the loop nor adjusted
+   (C10_unbonded_validators_are_not_adjusted, every reachable state).
+   That the stake AFTER the mint/delegate or unbond/burn equals the target within two units depends
+   on x/staking's share arithmetic: harness monitor on the real staking module and exact
+   correspondence of the staking view (partial; F-C10-2). *)
 From Coq Require Import ZArith List Bool.
 From Alliance Require Import Num KMap Types Monad Model Step Spec Hoare.
 From Alliance.Proofs Require Import Flag.
+From Alliance.Proofs Require Import Unbonded Target.
 Import ListNotations.
 Open Scope Z_scope.
 
@@ -33,3 +39,61 @@ Example C10_nonvacuous :
             EBank [(100, 1, 1000)] []; ODelegate 100 10 1 500] in
   map (fun x => (snd (fst x), flag (snd x))) (run_trace init_state h) = [(0, false); (0, false); (0, false); (0, true)].
 Proof. vm_compute. reflexivity. Qed.
+
+(* unbonded or jailed validators are neither counted nor adjusted: in every reachable state the
+   rebalance leaves the module's stake on a validator that is not bonded, and that validator's staking
+   record, exactly as they were (the partition loop keeps bonded validators only; every mint /
+   delegate / unbond / burn of the loop addresses a validator of that list) *)
+Theorem C10_unbonded_validators_are_not_adjusted : forall h als v s', let s := run init_state h in
+  match kget (svals s) [v] with Some sv => is_bonded sv = false | None => True end ->
+  rebalance_bond_token_weights als s = Ok tt s' ->
+  kget (sdels s') [v] = kget (sdels s) [v] /\ kget (svals s') [v] = kget (svals s) [v].
+Proof. exact unbonded_validators_are_not_adjusted. Qed.
+Print Assumptions C10_unbonded_validators_are_not_adjusted.
+
+(* the loop that computes a validator's target returns exactly the formula and touches nothing but the
+   rebalance flag *)
+Theorem C10_target_formula : forall t native unb vi als acc s,
+  exists s', mfold als acc (target_body t native unb vi) s = Ok (acc + target t native unb vi als) s' /\
+             (s' = s \/ s' = set_flag true s).
+Proof. exact target_loop. Qed.
+Print Assumptions C10_target_formula.
+Theorem C10_warmup_contributes_nothing : forall t native unb vi a,
+  rewards_started a t = false -> contribution t native unb vi a = 0.
+Proof. exact warmup_contributes_nothing. Qed.
+Print Assumptions C10_warmup_contributes_nothing.
+Theorem C10_no_stake_contributes_nothing : forall t native unb vi a,
+  camount (vi_vshares vi) (a_denom a) <= 0 -> contribution t native unb vi a = 0.
+Proof. exact no_stake_contributes_nothing. Qed.
+Print Assumptions C10_no_stake_contributes_nothing.
+(* the rebalance of the model is written with this loop (definitional equality) *)
+Example C10_target_body_is_the_loop_of_the_rebalance : forall als,
+  rebalance_bond_token_weights als =
+  (s0 <- gets (fun s => s) ;;
+   let alliance_bonded := alliance_bonded_amount s0 in
+   let native := bal s0 ACC_BONDED BOND_DENOM - alliance_bonded in
+   t <- gets now ;;
+   '(bonded, unb) <- mfold_swallow (valinfos s0) ([], []) Unbonded.part_body ;;
+   mfor bonded (fun x =>
+     let '(v, sv, vi) := x in
+     od <- gets (fun s => kget (sdels s) [v]) ;;
+     let current := match od with Some sh => sv_tokens_from_shares sv sh | None => 0 end in
+     expected <- mfold als 0 (target_body t native unb vi) ;;
+     if current <? expected then
+       let amt := dtrunc (expected - current) in
+       if amt =? 0 then ret tt
+       else
+         bank_mint ACC_ALLIANCE [(BOND_DENOM, amt)] ;;;
+         _ <- claim_validator_rewards v vi ;;
+         staking_delegate v sv amt
+     else if expected <? current then
+       let amt := dtrunc (current - expected) in
+       if amt =? 0 then ret tt
+       else
+         sh <- staking_validate_unbond v amt ;;
+         _ <- claim_validator_rewards v vi ;;
+         tok <- staking_unbond v sh ;;
+         c <- coin1 BOND_DENOM tok ;;
+         bank_burn ACC_BONDED c
+     else ret tt)).
+Proof. reflexivity. Qed.
